@@ -380,6 +380,70 @@ def check_store(case):
   return out
 
 
+
+# ------------------------------------------------- coverage-guided fuzzing
+def enum_fuzz(tier):
+  runs = 60000 if tier == 'quick' else 3000000
+  n = 2 if tier == 'quick' else 8
+  return [{'fuzz': {'runs': runs, 'shard': i}, 'found': []} for i in range(n)]
+
+
+def check_ns_fuzz(case):
+  """Runs the atheris/libFuzzer target harness/fuzz_ns.py (oracle inside the
+  target) in a subprocess; a crashing input is decoded back into the
+  namespace tuple and judged by check_ns, so the replay file needs no fuzzer."""
+  import os
+  import shutil
+  import subprocess
+  import sys
+  import tempfile
+  out = core.Out()
+  if case.get('found'):
+    res = check_ns({'batch': case['found']})
+    res.cls('fuzz_replay')
+    return res
+  deps = os.path.join(core.VERIF, '.deps')
+  if not os.path.isdir(os.path.join(deps, 'atheris')):
+    out.inconclusive = True
+    out.cls('atheris_not_installed')
+    return out
+  from harness import fuzz_ns
+  work = tempfile.mkdtemp(prefix='verif-fuzz-')
+  try:
+    corpus = os.path.join(work, 'corpus')
+    art = os.path.join(work, 'art') + os.sep
+    os.makedirs(corpus)
+    os.makedirs(art)
+    seed = core.derive_seed(os.environ.get('VERIF_SEED', '1'), 'C10', 'fuzz',
+                            case['fuzz']['shard']) % (2 ** 31 - 1) + 1
+    cmd = [sys.executable, os.path.join(core.VERIF, 'harness', 'fuzz_ns.py'),
+           '-runs=%d' % case['fuzz']['runs'], '-seed=%d' % seed,
+           '-artifact_prefix=' + art, '-max_len=64', corpus]
+    p = subprocess.run(cmd, capture_output=True, text=True, timeout=3000,
+                       cwd=work)
+    crashes = [f for f in os.listdir(art) if f.startswith('crash-')]
+    out.count('fuzz_executions', case['fuzz']['runs'])
+    out.cls('fuzz_campaign')
+    if crashes:
+      data = open(os.path.join(art, crashes[0]), 'rb').read()
+      ns = list(fuzz_ns.decode_input(data))
+      res = check_ns({'batch': [ns]})
+      for v in res.violations:
+        out.violate('fuzz/' + v['bucket'], v['detail'])
+      if not res.violations:
+        out.violate('fuzz/crash_not_reproduced', 'input %r -> %r; fuzzer said: '
+                    '%s' % (data, ns, p.stderr[-300:]))
+      case['found'].append(ns)  # travels into the replay file
+    elif p.returncode != 0:
+      raise RuntimeError('fuzz target failed: %s' % p.stderr[-1500:])
+    corp = len(os.listdir(corpus))
+    out.notes['corpus'] = corp
+    out.nontrivial = corp > 1
+  finally:
+    shutil.rmtree(work, ignore_errors=True)
+  return out
+
+
 def families(tier):
   return [
       core.Family('ns_enum', check_ns, enumerate=enum_ns,
@@ -399,4 +463,7 @@ def families(tier):
                                     'algorithm_write_with_zero_suggestions',
                                     'via_raw', 'via_client',
                                     'ram', 'sqlmem')),
+      core.Family('ns_fuzz', check_ns_fuzz, enumerate=enum_fuzz,
+                  shards={'quick': 2, 'thorough': 8},
+                  required_classes=('fuzz_campaign',)),
   ]
